@@ -68,6 +68,7 @@ func VH_C16_IncludeMiddle()   { vhC16Rules("IncludeMiddle", vhDefIncludeMiddle()
 func VH_C16_IncludeNested()   { vhC16Rules("IncludeNested", vhDefIncludeNested(), vhInput()) }
 func VH_C16_IncludeDiamond()  { vhC16Rules("IncludeDiamond", vhDefIncludeDiamond(), vhInput()) }
 func VH_C16_Astral()          { vhC16Rules("Astral", vhDefAstral(), vhInput()) }
+func VH_C16_EmptyState()      { vhC16Rules("EmptyState", vhDefEmptyState(), vhInput()) }
 func VH_C16_OddNames()        { vhC16Rules("OddNames", vhDefOddNames(), vhInput()) }
 func VH_C16_NonASCIINames()   { vhC16Rules("NonASCIINames", vhDefNonASCIINames(), vhInput()) }
 func VH_C16_BackrefOptGroup() { vhC16Rules("BackrefOptGroup", vhDefBackrefOptGroup(), vhInputASCII()) }
